@@ -65,6 +65,25 @@ FRAG = {
         'h': '<h1> T <small>s</small> </h1>',
         'styleattr': '<p style="color: red" class="k">s</p>',
         'onattr': '<p onclick="x()" class="k">e</p><button type="button" onclick=\'return false\'>b</button>',
+        # KeepWhitespace next to every element html.go treats specially for white space: text on both sides, with blanks
+        'kw_template': 'a <template>x</template> b',
+        'kw_noscript': 'a <noscript>x</noscript> b',
+        'kw_pre': 'a <pre> p  q </pre> b',
+        'kw_textarea': 'a <textarea> t </textarea> b',
+        'kw_br': 'a <br> b',
+        'kw_select': 'a <select><option>o</option></select> b',
+        'kw_span': 'a <span>x</span> b',
+        'kw_div': 'a <div>x</div> b',
+        'kw_img': 'a <img src="i.png" alt=""> b',
+        'kw_button': 'a <button type="button">k</button> b',
+        'kw_script': 'a <script>var s=1</script> b',
+        'kw_style': 'a <style>s{top:0}</style> b',
+        'kw_iframe': 'a <iframe src="f.html"></iframe> b',
+        'kw_label': 'a <label>x</label> b',
+        'kw_custom': 'a <my-el>x</my-el> b',
+        'kw_code': 'a <code> c </code> b',
+        'kw_q': 'a <q>x</q> b',
+        'kw_ins': 'a <ins>x</ins> b',
         'tstmt': '{O} if  x {C}<p>y</p>{O}  end {C}',
         'tattr': '<a href="{O}= u {C}" class="k" title="{O}  t  {C}">t</a>',
         'tmix': 'a {O}  x  {C} b <b>{O}y{C}</b>',
@@ -134,6 +153,12 @@ FRAG = {
         'obj': 'var record = { key: value, "other": 1, method: function () { return 1 } };',
         'str': 'var plain = \'it\\\'s "q"\';',
         'pow': 'var power = Math.pow(alpha, 2) + Math.pow(beta, gamma);',
+        # things that are NOT numeric literals and must not change under Precision
+        'strkey': 'lookup["12345"] = lookup["1.2345"] + lookup["0.000123456"]; var table = { "67891": %P, plain: lookup["98765.4321"] };',
+        'strdig': 'var digits = "3.14159 and 12345.678"; var quoted = \'0.000123456\'; label12345: for (;;) { break label12345 }',
+        'tpldig': 'var templ = `v${%P}:12345.678 ${beta}`;',
+        'bigint': 'var huge = 12345678901234567890n + %P;',
+        'optkey': 'var picked = lookup?.["12345"] ?? other.p12345678;',
         'short': 'function pack(alpha, beta) { return { alpha: alpha, beta: beta, other: alpha } }\nvar shown = { gamma: gamma };',
     },
 }
@@ -767,7 +792,7 @@ def selftest(ctx):
         dict(mode='lib', lang='svg', o=dict(default_opts(), KeepComments=True, Precision=3),
              **{'in': '<svg xmlns="http://www.w3.org/2000/svg"><!-- n --><rect x="1.23456" width="5"/></svg>'}),
         dict(mode='lib', lang='js', o=dict(default_opts(), KeepVarNames=True, Version=2015, Precision=3),
-             **{'in': 'function outer(first) { var local = first + 1.23456; return local }\nvar alpha = beta == null ? gamma : beta;'}),
+             **{'in': 'function outer(first) { var local = first + 1.23456; return local }\nvar alpha = beta == null ? gamma : beta; lookup["12345"] = "6.54321";'}),
         dict(mode='cli', lang='css', o=dict(default_opts(), Precision=2), flags=['--css-precision=2'],
              exp=dict(fl=[dict(flag='css-precision', val=2)]), **{'in': RICH['css'][0]}),
         dict(mode='cli', lang='xml', o=default_opts(), flags=[], typeargs=['--mime=application/rss+xml'],
@@ -828,6 +853,9 @@ def selftest(ctx):
         ('KeepVarNames', dict(js, ido=js['ido'] + ['e'])),
         ('KeepVarNames', dict(js, dco=js['dco'] + ['t'])),
         ('Precision', dict(js, no=[[49, 46, 51]] + js['no'][1:])),
+        # the number made from the string key "12345" rounded, a string literal changed
+        ('Precision (nothing else)', dict(js, nos=[(x if x != [49, 50, 51, 52, 53] else [49, 50, 51, 48, 48]) for x in js['nos']])),
+        ('Precision (nothing else)', dict(js, sk=[x.replace('6.54321', '6.54') for x in js['sk']])),
         ('binary output differs from library output under the documented options', dict(cl, cli=cl['cli'] + ' ')),
         ('flag has no effect on a discriminating input', dict(cl, dflt=cl['cli'])),
         ('library run does not use the documented options', dict(cl, o=dict(cl['o'], Precision=3))),
